@@ -90,6 +90,29 @@ theorem rowOfCells_map_cells (q : α → β) (d : Cell α) (cols : List SgField)
       · have : (s == a) = false := by simpa using h
         rw [this]; exact ih cs
 
+
+theorem Cell.isNum_iff (c : Cell α) : c.isNum = true ↔ ∃ v, c = .num v := by
+  cases c <;> simp [Cell.isNum]
+
+/-- when the column is in the header and the row has one cell per header entry, the lookup finds a
+cell: the default of `rowOfCells` is never used -/
+theorem rowOfCells_default (d d' : Cell α) (cols : List SgField) (cells : List (Cell α)) (s : SgField)
+    (hs : s ∈ cols) (hl : cells.length = cols.length) :
+    rowOfCells d cols cells s = rowOfCells d' cols cells s := by
+  unfold rowOfCells
+  induction cols generalizing cells with
+  | nil => cases hs
+  | cons a l ih =>
+    cases cells with
+    | nil => simp at hl
+    | cons c cs =>
+      simp only [List.zip_cons_cons, List.lookup_cons]
+      by_cases h : s = a
+      · subst h; simp
+      · have : (s == a) = false := by simpa using h
+        rw [this]
+        exact ih cs (by simpa [h] using hs) (by simpa using hl)
+
 /-- the row-wise checker accepts iff the lists have equal length and every aligned pair is accepted -/
 theorem checkRows_iff (ok : Nat → Particle α → List (Cell α) → Bool) (i : Nat)
     (ps : List (Particle α)) (cs : List (List (Cell α))) :
@@ -138,4 +161,63 @@ theorem resetFrom_getElem? (ops : NumOps α) (i j : Nat) (rows : List (SgRow α)
       simp only [resetFrom, List.getElem?_cons_succ, ih]
       rw [Nat.add_assoc, Nat.add_comm 1 j]
 
+/-! ### exact decoding of IEEE binary64 bit patterns of integers -/
+
+/-- decoding a bit pattern given by its sign bit, exponent field (normal range) and mantissa field -/
+theorem decodeInt_normal (s e m : Nat) (hs : s < 2) (he1 : 0 < e) (he2 : e < 2047) (hm : m < 2 ^ 52) :
+    decodeInt (s * 2 ^ 63 + e * 2 ^ 52 + m) =
+      (if 1075 ≤ e then some ((2 ^ 52 + m) * 2 ^ (e - 1075))
+       else if (2 ^ 52 + m) % 2 ^ (1075 - e) = 0 then some ((2 ^ 52 + m) / 2 ^ (1075 - e)) else none).map
+        (fun n : Nat => if s = 1 then -(n : Int) else (n : Int)) := by
+  have h1 : (s * 2 ^ 63 + e * 2 ^ 52 + m) / 2 ^ 63 % 2 = s := by omega
+  have h2 : (s * 2 ^ 63 + e * 2 ^ 52 + m) / 2 ^ 52 % 2048 = e := by omega
+  have h3 : (s * 2 ^ 63 + e * 2 ^ 52 + m) % 2 ^ 52 = m := by omega
+  have h4 : e ≠ 2047 := by omega
+  have h5 : e ≠ 0 := by omega
+  unfold decodeInt
+  simp only [h1, h2, h3, h4, h5, if_false]
+  generalize (if 1075 ≤ e then some ((2 ^ 52 + m) * 2 ^ (e - 1075))
+       else if (2 ^ 52 + m) % 2 ^ (1075 - e) = 0 then some ((2 ^ 52 + m) / 2 ^ (1075 - e)) else none) = o
+  cases o <;> simp
+
+/-- the bit pattern `encodeNat n` (sign bit `s`) decodes to `±n`, for every `0 < n < 2^53` -/
+theorem decodeInt_signed_encodeNat (s n : Nat) (hs : s < 2) (h0 : n ≠ 0) (hn : n < 2 ^ 53) :
+    decodeInt (s * 2 ^ 63 + encodeNat n) = some (if s = 1 then -(n : Int) else (n : Int)) := by
+  have hk1 : 2 ^ Nat.log2 n ≤ n := Nat.log2_self_le h0
+  have hk2 : n < 2 ^ (Nat.log2 n + 1) := Nat.lt_log2_self
+  have hk : Nat.log2 n ≤ 52 := by
+    apply Nat.le_of_not_lt; intro hc
+    have : 2 ^ 53 ≤ 2 ^ Nat.log2 n := Nat.pow_le_pow_right (by decide) (by omega)
+    omega
+  unfold encodeNat
+  rw [if_neg h0]
+  generalize Nat.log2 n = k at *
+  have hPQ : 2 ^ k * 2 ^ (52 - k) = 2 ^ 52 := by rw [← Nat.pow_add]; congr 1; omega
+  have hQpos : 0 < 2 ^ (52 - k) := Nat.pow_pos (by decide)
+  have hlo : 2 ^ 52 ≤ n * 2 ^ (52 - k) := by rw [← hPQ]; exact Nat.mul_le_mul_right _ hk1
+  have hhi : n * 2 ^ (52 - k) < 2 ^ 53 := by
+    have h1 : n * 2 ^ (52 - k) < 2 ^ (k + 1) * 2 ^ (52 - k) := Nat.mul_lt_mul_of_pos_right hk2 hQpos
+    have h2 : 2 ^ (k + 1) * 2 ^ (52 - k) = 2 ^ 53 := by rw [← Nat.pow_add]; congr 1; omega
+    omega
+  rw [← Nat.add_assoc, decodeInt_normal s (1023 + k) (n * 2 ^ (52 - k) - 2 ^ 52) hs (by omega) (by omega) (by omega)]
+  have hsig : 2 ^ 52 + (n * 2 ^ (52 - k) - 2 ^ 52) = n * 2 ^ (52 - k) := by omega
+  rw [hsig]
+  by_cases hk52 : k = 52
+  · subst hk52; simp
+  · have hlt : ¬ 1075 ≤ 1023 + k := by omega
+    have hsub : 1075 - (1023 + k) = 52 - k := by omega
+    rw [if_neg hlt, hsub, Nat.mul_mod_left, if_pos rfl, Nat.mul_div_cancel _ hQpos]
+    rfl
+
+/-- **Every integer of magnitude below 2^53 is decoded exactly from its bit pattern.** -/
+theorem decodeInt_encodeInt (z : Int) (hz : z.natAbs < 2 ^ 53) : decodeInt (encodeInt z) = some z := by
+  cases z with
+  | ofNat n =>
+    by_cases h0 : n = 0
+    · subst h0; decide +kernel
+    · have := decodeInt_signed_encodeNat 0 n (by decide) h0 (by simpa using hz)
+      simpa [encodeInt] using this
+  | negSucc n =>
+    have := decodeInt_signed_encodeNat 1 (n + 1) (by decide) (by omega) (by simpa using hz)
+    simpa [encodeInt, Int.negSucc_eq] using this
 end CryoCat.C04
